@@ -47,6 +47,10 @@ def items(tier, seed):
         its.append((sname, 'raw', ents[0].name))
         its.append((sname, 'plain', 'coodata'))
         its.append((sname, 'mirrored', 'coodata'))
+        its.append((sname, 'plain', 'asmlists'))
+    for nr in (1, 2, 3):
+        for nc in (1, 2, 3, 4):
+            its.append(('-', f'{nr}x{nc}', 'bmatgrid'))
     return its
 
 
@@ -81,7 +85,13 @@ def work(item, tier, seed):
     out = Out()
     out.set_item(item)
     warnings.simplefilter('ignore')
+    if ename == 'bmatgrid':
+        bmat_grid(lab, out)
+        return out
     m = get_mesh(sname, lab, seed)
+    if ename == 'asmlists':
+        asm_list_checks(m, sname, lab, out)
+        return out
     if ename == 'coodata':
         coodata_checks(m, sname, lab, out)
         return out
@@ -323,6 +333,116 @@ def wrapper_checks(m, ent, sname, lab, tier, out):
     out.outcome((ent.name, nc, N))
     if lab == 'plain':
         out.sample({'mesh': f'{sname}:{lab}', 'element': ent.name, 'components': nc, 'N': int(N)}, 1)
+
+
+def bmat_grid(lab, out):
+    """utils.bmat on EVERY nr x nc grid pattern of present / absent (None) blocks in which each block row and block
+    column keeps a block (what scipy requires), with pairwise different block heights and widths and integer entries:
+    the matrix equals the dense block layout and .blocks are the cumulative column widths (the offsets at which a
+    solution vector is split)."""
+    from skfem.utils import bmat
+    nr, nc = (int(x) for x in lab.split('x'))
+    heights = [3, 1, 2][:nr]
+    widths = [2, 3, 1, 4][:nc]
+    r0 = np.concatenate(([0], np.cumsum(heights)))
+    c0 = np.concatenate(([0], np.cumsum(widths)))
+    want_blocks = [int(x) for x in np.cumsum(widths)[:-1]]
+    cells = [(i, j) for i in range(nr) for j in range(nc)]
+    for mask in range(1 << len(cells)):
+        present = {c for k, c in enumerate(cells) if mask >> k & 1}
+        if any(all((i, j) not in present for j in range(nc)) for i in range(nr)):
+            continue
+        if any(all((i, j) not in present for i in range(nr)) for j in range(nc)):
+            continue
+        dense = np.zeros((r0[-1], c0[-1]))
+        rows = []
+        for i in range(nr):
+            row = []
+            for j in range(nc):
+                if (i, j) in present:
+                    blk = (np.arange(heights[i] * widths[j]).reshape(heights[i], widths[j]) + 1.0) * (1 + i + 10 * j)
+                    dense[r0[i]:r0[i + 1], c0[j]:c0[j + 1]] = blk
+                    row.append(sp.csr_matrix(blk))
+                else:
+                    row.append(None)
+            rows.append(row)
+        out.ev()
+        case = {'grid': lab, 'present': sorted(present)}
+        try:
+            B = bmat(rows, 'csr')
+        except Exception as e:
+            out.violation(f"C19|bmat-grid|{lab}|exception", f"{e!r} for blocks present at {sorted(present)}", case=case)
+            continue
+        got = [int(x) for x in B.blocks]
+        if B.shape != dense.shape or not np.array_equal(B.toarray(), dense):
+            out.violation(f"C19|bmat-grid|{lab}|matrix", f"utils.bmat differs from the block layout for blocks present at "
+                          f"{sorted(present)}", case=case)
+        elif got != want_blocks:
+            out.violation(f"C19|bmat-grid|{lab}|offsets", f"utils.bmat on a {lab} grid with block widths {widths}, blocks present "
+                          f"at {sorted(present)}: .blocks = {got}, cumulative widths are {want_blocks}", case=case)
+        else:
+            if len(present) < len(cells) or nr != nc:
+                out.nt((lab, mask))
+        out.outcome((lab, len(present)))
+    out.sample({'sub-check': 'bmat-grid', 'grid': lab, 'heights': heights, 'widths': widths}, 1)
+
+
+def asm_list_checks(m, sname, lab, out):
+    """asm(form, ubases, vbases) with every combination of list lengths (a bare basis, lists of 1, 2, 3 bases): the result is
+    the sum over the product of the lists, and w.idx tells the integrand which member of each list it sees."""
+    from skfem import InteriorFacetBasis, CellBasis, BilinearForm, LinearForm, Functional, asm
+    import skfem.element as E
+    kind = KIND_OF_CLASS[type(m).__name__]
+    sig0 = "C19|asm-lists|"
+    case0 = {'seed': sname, 'variant': lab}
+    p1 = {'line': E.ElementLineP1, 'tri': E.ElementTriP1, 'quad': E.ElementQuad1, 'tet': E.ElementTetP1, 'hex': E.ElementHex1}[kind]
+    p2 = {'line': E.ElementLineP2, 'tri': E.ElementTriP2, 'quad': E.ElementQuad2, 'tet': E.ElementTetP2, 'hex': E.ElementHex2}[kind]
+    fbu = [InteriorFacetBasis(m, p2(), side=s, intorder=4) for s in (0, 1)]
+    fbv = [InteriorFacetBasis(m, p1(), side=s, intorder=4) for s in (0, 1)]
+    choices = {'bare': lambda fb: fb[1], 'list1': lambda fb: [fb[1]], 'list2': lambda fb: [fb[0], fb[1]],
+               'list3': lambda fb: [fb[0], fb[1], fb[0]]}
+    aslist = lambda x: x if isinstance(x, list) else [x]      # noqa: E731
+
+    def wt(i, j):
+        return 1.0 + i + 10.0 * j
+
+    for un, uf in choices.items():
+        for vn, vf in choices.items():
+            ul, vl = uf(fbu), vf(fbv)
+            out.ev()
+            case = dict(case0, trial=un, test=vn)
+            try:
+                A = asm(BilinearForm(lambda u, v, w: u * v * (1.0 + w.idx[0] + 10.0 * w.idx[1]) + u.grad[0] * v * (w.idx[0] == w.idx[1])),
+                        ul, vl)
+            except Exception as e:
+                out.violation(sig0 + f"bilinear|{un}x{vn}|exception", f"{e!r} [mesh {sname}:{lab}]", case=case)
+                continue
+            W = None
+            for i, ub in enumerate(aslist(ul)):
+                for j, vb in enumerate(aslist(vl)):
+                    T = BilinearForm(lambda u, v, w, i=i, j=j: u * v * wt(i, j) + u.grad[0] * v * (i == j)).assemble(ub, vb)
+                    W = T if W is None else W + T
+            if A.shape != W.shape or np.abs((A - W).toarray()).max() > 1e-12 * (1 + np.abs(W.toarray()).max()):
+                out.violation(sig0 + f"bilinear|{un}x{vn}|sum-over-product", f"asm(form, {un}, {vn}) is not the sum over the "
+                              f"product of the two lists with w.idx = (trial index, test index) [mesh {sname}:{lab}]", case=case)
+            elif un != vn:
+                out.nt((sname, un, vn))
+            out.outcome((un, vn))
+    for vn, vf in choices.items():
+        vl = vf(fbv)
+        out.ev()
+        try:
+            L = asm(LinearForm(lambda v, w: v * (2.0 + w.idx[0]) * (1 + w.x[0])), vl)
+            J = asm(Functional(lambda w: (3.0 + w.idx[0]) * w.x[0] ** 2), vl)
+        except Exception as e:
+            out.violation(sig0 + f"linear|{vn}|exception", f"{e!r} [mesh {sname}:{lab}]", case=dict(case0, test=vn))
+            continue
+        Lw = sum(LinearForm(lambda v, w, i=i: v * (2.0 + i) * (1 + w.x[0])).assemble(vb) for i, vb in enumerate(aslist(vl)))
+        Jw = sum(Functional(lambda w, i=i: (3.0 + i) * w.x[0] ** 2).assemble(vb) for i, vb in enumerate(aslist(vl)))
+        if np.abs(L - Lw).max() > 1e-12 * (1 + np.abs(Lw).max()) or abs(J - Jw) > 1e-12 * (1 + abs(Jw)):
+            out.violation(sig0 + f"linear|{vn}|sum", f"asm of a linear form / functional over {vn} is not the indexed sum "
+                          f"[mesh {sname}:{lab}]", case=dict(case0, test=vn))
+    out.sample({'sub-check': 'asm-lists', 'mesh': f'{sname}:{lab}', 'list forms': list(choices)}, 1)
 
 
 def comp_obs(fld, which):
